@@ -3,4 +3,5 @@ CONSTANTS TS <- TS31 W = 3 H = 3 FillMode = TRUE
 INVARIANT Correct
 INVARIANT WrittenOnce
 INVARIANT InBuffer
+INVARIANT StepsAgree
 CHECK_DEADLOCK FALSE
